@@ -333,11 +333,13 @@ B1 = Bundle("B1", [so3, r2, se2])
 B2 = Bundle("B2", [se2, so3, r3, c1])
 B3 = Bundle("B3", [Bundle("B3a", [so2, r1]), se3])
 B4 = Bundle("B4", [so3, so3])
+B5 = Bundle("B5", [gal, so3])            # a Galilei part: its outputs land in a strided block of the Bundle's matrices (C01, C03 only)
+B6 = Bundle("B6", [r1, sek2])
 
 CORE = [so2, so3, se2, se3, c1, gal, sek1, sek2, sek3]
 QUICK = [so2, so3, se2, se3, c1]
 BUNDLES = [B1, B2, B3, B4]
-BY_NAME = {g.name: g for g in CORE + BUNDLES}
+BY_NAME = {g.name: g for g in CORE + BUNDLES + [B5, B6]}
 
 
 def unit_hyp(ctx, G, prefix):
